@@ -123,3 +123,44 @@ def replay_fconv(ctx, res):
                         "script": script, "families": [fam], "input": v}
         except Exception as ex:
             o.replay = {"reproduced": False, "outcome": "replayer error: %r" % (ex,)}
+
+
+FSORT_SCRIPT = r'''
+import sys, importlib
+fam, x, y = %(fam)r, %(x)d, %(y)d
+M = importlib.import_module("BTrees._%%sBTree" %% fam)
+rng = {"I": (-2**31, 2**31-1), "U": (0, 2**32-1), "L": (-2**63, 2**63-1), "Q": (0, 2**64-1)}[fam[0]]
+def dom(v):       # the model is a bit pattern: read it in the family's key type
+    w = 32 if fam[0] in "IU" else 64
+    v %%= 2**w
+    return v - 2**w if (fam[0] in "IL" and v >= 2**(w-1)) else v
+keys = sorted(set([dom(x), dom(y)] + [rng[0] + 3*i for i in range(450)] + [rng[1] - 5*i for i in range(450)]))
+got = list(M.multiunion([list(reversed(keys))]))
+print("multiunion of %%d keys incl. %%d and %%d: %%s" %% (len(keys), dom(x), dom(y), "sorted" if got == keys else "NOT the sorted union"))
+sys.exit(0 if got == keys else 1)
+'''
+
+
+def replay_fsort(ctx, res):
+    import re
+    from lib import build
+    for o in res.obligations:
+        if o.status != "refuted" or not o.name.startswith("F-SORT") or not o.model:
+            continue
+        fm = re.match(r"\[(\w\w)\]", o.detail or "")
+        try:
+            x, y = int(o.model.get("x", 0)), int(o.model.get("y", 0))
+        except (TypeError, ValueError):
+            continue
+        if not fm:
+            continue
+        fam = fm.group(1)
+        script = FSORT_SCRIPT % {"fam": fam, "x": x, "y": y}
+        try:
+            bdir = build.build((fam,))
+            e = dict(os.environ, PYTHONPATH=bdir + os.pathsep + VERIF)
+            p = subprocess.run([PY, "-c", script], env=e, capture_output=True, text=True, timeout=120)
+            o.replay = {"reproduced": p.returncode == 1, "outcome": (p.stdout + p.stderr)[-800:],
+                        "script": script, "families": [fam]}
+        except Exception as ex:
+            o.replay = {"reproduced": False, "outcome": "replayer error: %r" % (ex,)}
